@@ -18,3 +18,16 @@ def srcAlias : List (Str × Str) :=
   JediModel.Gen.C19.searchTypeAlias.map fun p => (p.1.toList, p.2.toList)
 
 end JediModel.Walk
+
+namespace JediModel.Search
+
+/-- the `else:` branch (file event) of the step-1 loop of `Project._search_func` as it stands in the source -/
+def srcFileBranch : FileBranch := JediModel.Gen.C19.searchFileBranch
+
+/-- `(name + '.py', name + '.pyi')` -/
+def srcModuleSuffixes : List JediModel.Walk.Str := JediModel.Gen.C19.moduleFileSuffixes.map String.toList
+
+/-- `stub_folder_name = name + '-stubs'` -/
+def srcStubSuffix : JediModel.Walk.Str := JediModel.Gen.C19.stubFolderSuffix.toList
+
+end JediModel.Search
